@@ -1104,6 +1104,12 @@ def c17(res: Result):
     for i, tt in enumerate(pool):
         ops = list(rng.choice(COMPLETE_DEFAULT + [[{"op": "min", "n": 1, "size": -1, "skip": False}], [{"op": "scc", "maa": False}]])) + [{"op": "allsets"}]
         tasks.append({"kind": "sigma", "tid": f"p{i}", "tt": tt, "ops": ops, "seed": rng.randrange(1 << 30), "variants": 3 if q else 6})
+        if i % 4 == 0:
+            # a non-default configuration must reach the diagram whatever the text format: a single root expansion under a small
+            # motif limit raises or not depending only on the number of motifs (presentation-independent)
+            tasks.append({"kind": "sigma", "tid": f"c{i}", "tt": tt, "ops": [{"op": "exp", "n": 1}, {"op": "allsets"}], "seed": rng.randrange(1 << 30),
+                          "variants": 3 if q else 6,
+                          "cfg": {"maxm": rng.choice([1, 2, 3]), "candlim": 100000, "rsthr": 1000, "simbudget": 1000, "nfvsthr": 2000}})
     res.cov["rule"] = ("Each network is presented in several ways: variables renamed (names whose alphabetical order differs from the declaration order, "
                        "mixed case, digits, underscores), declarations shuffled, update functions rendered as minterm DNF or as random Shannon "
                        "expansions, variables encoded by their negation, and bnet / aeon / sbml text; the library is run on the original and on each "
